@@ -65,6 +65,16 @@ Fixpoint longest_ticks (cs : list ascii) (cur best : nat) : nat :=
 
 Definition starts_tick (cs : list ascii) : bool := match cs with c :: _ => Ascii.eqb c btick | [] => false end.
 
+(* the closing ~~ is not recognised by the reader when the character before it is a tilde (even an escaped one): the
+   last two characters \~ of what a struck-through run wraps are written as the character reference *)
+Definition tilde : ascii := ascii_of_nat 126.
+Definition tilde_ref : list ascii := chars "&#126;".
+Definition ref_tail (cs : list ascii) : list ascii :=
+  match rev cs with
+  | t :: b :: r => if Ascii.eqb t tilde && Ascii.eqb b bslash then rev r ++ tilde_ref else cs
+  | _ => cs
+  end.
+
 Definition format_run (o : wopts) (r : wrun) : string :=
   let cs := chars (w_text r) in
   match cs with
@@ -83,7 +93,7 @@ Definition format_run (o : wopts) (r : wrun) : string :=
         let t0 := str (escape_chars core) in
         let t1 := if w_bold r then (if w_italic r then ("***" ++ t0 ++ "***")%string else ("**" ++ t0 ++ "**")%string)
                   else if w_italic r then (o_emph o ++ t0 ++ o_emph o)%string else t0 in
-        let t2 := if w_strike r then ("~~" ++ t1 ++ "~~")%string else t1 in
+        let t2 := if w_strike r then ("~~" ++ str (ref_tail (chars t1)) ++ "~~")%string else t1 in
         (str lead ++ t2 ++ str trail)%string
   end.
 
